@@ -48,12 +48,18 @@ def load_known(prop):
 
 def _worker(args):
     modname, tier, seed, shard, nshards, spec, known_active = args
+    if os.environ.get('VERIF_DUMP_AFTER'):
+        import faulthandler
+        faulthandler.dump_traceback_later(int(os.environ['VERIF_DUMP_AFTER']), exit=False)
     try:
         mod = importlib.import_module(modname)
         ctx = Ctx(mod.ID, tier, seed, shard, nshards, known_active)
         t0 = time.time()
         mod.run_shard(ctx, spec)
         res = ctx.result()
+        # plain data only: whatever the code under test returned (exception objects, closures, ...) must not break pickling
+        res['samples'] = json.loads(json.dumps(enc(res['samples']), default=repr))
+        res['violations'] = json.loads(json.dumps(enc(res['violations']), default=repr))
         res['wall'] = time.time() - t0
         res['spec'] = spec
         return ('ok', res)
